@@ -99,7 +99,7 @@ static const PmcConfig CFG[] = {
     {"F:ssss,Zrrrr",2, {0,0}, {0,0}, {0,0}, {0,0}, ""},
     {"B:r|s",       3, {2,3}, {0,0}, {0,0}, {0,0}, "batch ring"},
     {"B:r,r|ss",    3, {1,2}, {0,0}, {0,0}, {0,0}, ""},
-    {"M:r|s:tso",   3, {2,2}, {0,0}, {1,2}, {3,3}, "the Dekker window under x86-TSO: the seq_cst fence in send() and the seq_cst RMW in recv() must close it"},
+    {"M:r|s:tso",   3, {2,2}, {0,0}, {1,2}, {2,3}, "the Dekker window under x86-TSO: the seq_cst fence in send() and the seq_cst RMW in recv() must close it"},
     {"M:r|@s:tso",  3, {2,2}, {0,0}, {1,2}, {3,3}, ""},
     {"F:r|s",       3, {2,3}, {0,0}, {0,0}, {0,0}, "FlexRingChannel"},
     {"F:rrr|sss",   3, {1,2}, {0,0}, {0,0}, {0,0}, ""},
